@@ -1,18 +1,27 @@
 --------------------------- MODULE Trace_Display ---------------------------
-(* impl -> spec for the textual forms of Display.tla: one event per generated jet-free program with its bytes, the crate's
-   base64 / hex / DisplayExpr strings and the result of parsing the two strings back (RedeemNode::from_str). *)
+(* impl -> spec for the textual forms of Display.tla: one "display" event per generated jet-free program with its bytes, the
+   crate's base64 / hex / DisplayExpr strings and the result of parsing the two strings back (RedeemNode::from_str); one "text"
+   event per generated type / value / word / root with the crate's Display texts (transliterated to ASCII). *)
 EXTENDS Display, Json, IOUtils
 Rec == ndJsonDeserialize(IOEnv.TRACE)
 VARIABLE l
-Ok(e) == /\ e.b64 = Base64(e.pb)
+OkText(e) == /\ e.ty_text = TyText(e.ty)
+             /\ e.val_text = ValText(e.val, e.ty)
+             /\ e.arrow_text = ArrowText(e.ty, e.ty2)
+             /\ e.word_text = WordText(e.wbits) /\ e.word_iter_ok = TRUE
+             /\ e.cmr_text = Hex(e.cmr_bits) /\ e.cmr_back = "same"
+OkProg(e) == /\ e.b64 = Base64(e.pb)
          /\ e.wit_hex = Hex(e.wb)
          /\ e.expr = Expr(e.dag, Len(e.dag))
          /\ e.from_str = "same"
 Init == l = 1
+Ok(e) == IF e.ev = "text" THEN OkText(e) ELSE OkProg(e)
 Next == l <= Len(Rec) /\ (Ok(Rec[l]) = TRUE) /\ l' = l + 1
 Spec == Init /\ [][Next]_l
 Accepted == IF TLCGet("stats").diameter - 1 = Len(Rec) THEN TRUE
             ELSE /\ PrintT(<<"REJECTED", TLCGet("stats").diameter>>)
+                 /\ (Rec[TLCGet("stats").diameter].ev = "text" => PrintT(<<"EXPECTED-TEXT", TyText(Rec[TLCGet("stats").diameter].ty), ValText(Rec[TLCGet("stats").diameter].val, Rec[TLCGet("stats").diameter].ty)>>))
+                 /\ Rec[TLCGet("stats").diameter].ev # "text"
                  /\ PrintT(<<"EXPECTED", Base64(Rec[TLCGet("stats").diameter].pb), Expr(Rec[TLCGet("stats").diameter].dag, Len(Rec[TLCGet("stats").diameter].dag))>>)
                  /\ FALSE
 =============================================================================
